@@ -84,7 +84,7 @@ def run(tier, seed):
                 n = len(inner)
                 inner = [0x30, 0x82, n >> 8, n & 255] + inner if n < 65536 else inner
             return inner
-        for j, body in enumerate([[0x30, 0x80] * n for n in (70, 600, 4000, 16000)] + [[0x7f, 0x66, 0x80] + [0x30, 0x80] * n for n in (4000, 16000)] + [nest_def(n) for n in (70, 700, 8000)] +
+        for j, body in enumerate([[0x30, 0x80] * n for n in (70, 600, 4000, 16000, 24000, 32700)] + [[0x7f, 0x66, 0x80] + [0x30, 0x80] * n for n in (4000, 16000, 32700)] + [nest_def(n) for n in (70, 700, 8000, 16000)] +
                                  [[0x7f, 0x66, 0x82, (7990 * 4) >> 8, (7990 * 4) & 255] + nest_def(7990)]):
             plans.append({"id": "nest%d" % j, "stage": "cresp", "layer": "ber", "faults": [{"op": "trunc", "at": 0}, {"op": "append", "bytes": body}], "uid": 1004})
         plans.append({"id": "selftest", "stage": "attach", "layer": "mcs", "faults": [{"op": "set8", "off": 1, "v": 1}], "uid": 1004})
@@ -107,7 +107,7 @@ def run(tier, seed):
         lines = [l for l in open(trace).read().split("\n") if l.strip()]
         runs = core.split_runs(lines)
         tested = []
-        if not rejects:
+        if not rejects and not v.violations:
             sl = [lines[s:e] for (s, e) in runs if json.loads(lines[s]).get("run") == "selftest"][0]
             def panic(evs): evs[1]["res"] = "panic"; return evs
             def alloc(evs): evs[1]["peak"] = 10 ** 9; return evs
